@@ -368,6 +368,12 @@ def _get_only_mach_data(data: List[DragDataPoint]) -> List[float]:
      "        import warnings as _w\n        _w.simplefilter(\"once\")\n        it = 0  # iteration counter\n",
      "the defect repaired by a fix: commit, re-seeded: every integration rewrites the process-wide warnings filter, so an "
      "operation that warns behaves differently before and after the first computation when the user asked for errors"),
+    ("c02-iteration-counted-only-on-progress", "C02", TC,
+     "            iterations_count += 1\n",
+     "            iterations_count += 1 if zero_finding_error < getattr(self, '_prev_zfe', 1e99) else 0\n"
+     "            self._prev_zfe = zero_finding_error\n",
+     "pure non-termination: an iteration that does not reduce the error is not counted, so a search that stalls or "
+     "diverges (steep sight lines, unreachable targets) never reaches the iteration cap"),
 ]
 
 
